@@ -82,9 +82,9 @@ class ExecRig(object):
     def emit(self, who, ev, **kw):
         e = {'who': who, 'ev': ev, 'uid': kw.pop('uid', 'none')}
         e.update(kw)
-        ex = self.ex
-        e['tasks']   = sorted(dict.keys(ex._tasks))
-        e['hasproc'] = sorted(u for u, t in self.tasks.items() if dict.__contains__(t, 'proc'))
+        if ev == 'End':
+            e['tasks']   = sorted(dict.keys(self.ex._tasks))
+            e['hasproc'] = sorted(u for u, t in self.tasks.items() if dict.__contains__(t, 'proc'))
         self.events.append(e)
 
     def point(self, name, wants=None):
